@@ -279,9 +279,9 @@ def _get_best_taylor_coefficients(bs, rs, m, max_m1m2):
     mvec = np.arange(m)
     if len(extrap) > 2:
         all_coefs, all_errors = dea3(extrap[:-2], extrap[1:-1], extrap[2:])
-        # the estimates cannot be better than the rounding error of the FFT on their circle
-        all_errors = all_errors + [EPS * np.max(np.abs(b * np.power(r, mvec))) / np.power(r, mvec)
-                                   for b, r in zip(bs[4:], rs[4:])]
+        # the estimates cannot be better than the rounding error of the FFT on the five circles they use
+        floors = [EPS * np.max(np.abs(b * np.power(r, mvec))) / np.power(r, mvec) for b, r in zip(bs, rs)]
+        all_errors = all_errors + np.max([floors[j:len(floors) - 4 + j] for j in range(5)], axis=0)
         steps = np.atleast_1d(rs[4:])[:, None] * mvec
         # pylint: disable=protected-access
         coefs, info = _Limit._get_best_estimate(all_coefs, all_errors, steps, (m,))
